@@ -3,7 +3,7 @@ from __future__ import annotations
 
 import ast
 
-from sa.loader import norm, norm1, walk_shallow, is_super_call, call_name, subscript_writes
+from sa.loader import recv, norm, norm1, walk_shallow, is_super_call, call_name, subscript_writes
 from sa.rulekit import (nodes_calling, node_calls, nodes_where, return_nodes, must_pass,
                         nodes_writing_attr, node_roots, effect_free_to, is_const)
 from sa.report import path_witness
@@ -20,7 +20,7 @@ UNDECIDED = [
 
 def _is_validate_call(e) -> bool:
     return (isinstance(e, ast.Call) and isinstance(e.func, ast.Attribute)
-            and e.func.attr == '_validate' and norm(e.func.value) == 'self')
+            and e.func.attr == '_validate' and recv(e) == 'self')
 
 
 def _validated_value(ck, fi, cfg, node, expr) -> tuple[bool, str]:
@@ -255,7 +255,7 @@ def run(ck):
             direct = nodes_calling(g2, 'set_output') + nodes_writing_attr(g2, '_output', None)
             evs = nodes_where(g2, lambda n: any(
                 isinstance(c.func, ast.Attribute) and c.func.attr == 'event'
-                and norm(c.func.value) == 'self' and c.args and is_const(c.args[0], 'put')
+                and recv(c) == 'self' and c.args and is_const(c.args[0], 'put')
                 and any(k.arg == 'value' and isinstance(k.value, ast.Name)
                         and k.value.id == t.node.args.args[1].arg for k in c.keywords)
                 for c in node_calls(n)))
